@@ -186,4 +186,17 @@ theorem c11_direct_mode_counterexample :
 theorem c11_direct_mode_poller_counterexample :
     (run (init .direct 1 (fun _ => [7, 8]) [0]) [.grow 0, .grow 0, .poll]).counted = [[(0, [7])]] := by decide
 
+/-- **the source implements the protocol the theorems are about**: `write_to_disk` (as extracted from the current
+source) writes a fresh, hidden temporary and renames it into place -/
+theorem c11_source_mode : sourceMode = .tmpRename := by decide
+
+/-- `c11_reaper_safe` and `c11_poller_safe` for the mode the source implements -/
+theorem c11_safe_source (nb : Nat) (payload : Nat → Payload) (batches : List Nat) (sched : List Act) :
+    let s' := run (init sourceMode nb payload batches) sched
+    s'.reaper.failed = false ∧ (s'.reaper.next = nb → s'.reaper.acc = (List.range nb).map payload) ∧
+    (∀ i d, s'.res i = some d → d = s'.payload i) ∧ (∀ c ∈ s'.counted, ∀ x ∈ c, x.2 = s'.payload x.1) := by
+  rw [c11_source_mode]
+  exact ⟨(c11_reaper_safe nb payload batches sched).1, (c11_reaper_safe nb payload batches sched).2,
+    (c11_poller_safe nb payload batches sched).1, (c11_poller_safe nb payload batches sched).2⟩
+
 end Conc
